@@ -223,8 +223,20 @@ impl Styles {
     // NB: this method is case sensitive
     pub fn get_style_index_by_name(&self, style_name: &str) -> Result<i32, String> {
         let xf_id = self.get_xf_id_by_name(style_name)?;
+        let record = self.cell_style_xfs.get(xf_id as usize);
         for (index, cell_xf) in self.cell_xfs.iter().enumerate() {
-            if cell_xf.xf_id == xf_id && !Self::cell_xf_has_overrides(cell_xf) {
+            // Anonymous formats are parented to style 0 without overrides too:
+            // a plain representative also has the components of the style.
+            let has_style_components = record.is_none_or(|r| {
+                r.num_fmt_id == cell_xf.num_fmt_id
+                    && r.font_id == cell_xf.font_id
+                    && r.fill_id == cell_xf.fill_id
+                    && r.border_id == cell_xf.border_id
+            });
+            if cell_xf.xf_id == xf_id
+                && !Self::cell_xf_has_overrides(cell_xf)
+                && has_style_components
+            {
                 return Ok(index as i32);
             }
         }
